@@ -78,9 +78,15 @@ def children_of_voided_parent(fail):
         and fail.get("voided_parent") is True
 
 
+def equal_penalty_solutions(fail):
+    """F43: both widths solve every differing line with the same penalty: the search has two equally valued solutions and the
+    order of exploration (which depends on the limit) picks one"""
+    return fail.get("kind") == "width_is_style_switch" and fail.get("equal_penalty_tie") is True
+
+
 def line_without_solution(fail):
     """F42: the token's logical line got no solution from the search (none / iteration limit) and keeps its source layout"""
-    return fail.get("kind") == "plan_not_canonical" and fail.get("no_solution_line") is True
+    return fail.get("kind") in ("plan_not_canonical", "leading_blank_line", "two_blank_lines") and fail.get("no_solution_line") is True
 
 
 _C05_KINDS = ("statement_not_on_own_line", "statement_wrong_indentation")
@@ -193,7 +199,7 @@ def witness_inputs(prop):
     return out
 
 
-DETECTORS = {f.__name__: f for f in [line_without_solution, children_of_voided_parent, first_member_named_like_class_modifier, anonymous_routine_inside_raise, comment_between_control_keyword_and_begin, config_value_coerced, nested_anonymous_routines_unclosed_paren, lone_cr_after_line_comment, overflow_by_closers_after_line_comment, wider_more_lines_in_overflow_regime, wider_more_lines_cheaper_break_kind, mlstring_width_dependence,
+DETECTORS = {f.__name__: f for f in [equal_penalty_solutions, line_without_solution, children_of_voided_parent, first_member_named_like_class_modifier, anonymous_routine_inside_raise, comment_between_control_keyword_and_begin, config_value_coerced, nested_anonymous_routines_unclosed_paren, lone_cr_after_line_comment, overflow_by_closers_after_line_comment, wider_more_lines_in_overflow_regime, wider_more_lines_cheaper_break_kind, mlstring_width_dependence,
     cr_after_line_comment_in_region, literal_then_gap, mlstring_in_child_line_reflow,
     trailing_exotic_blank_in_line_comment, unterminated_literal_trailing_blank, continuation_saturates,
     nesting_depth, cursor_mid_char_changed_token, cursor_u16_truncation, mlstring_last_terminator_lone_cr,
